@@ -213,7 +213,7 @@ type profile struct {
 
 var allActs = []string{"equivocate", "badparent", "staleqc", "inflate", "dupsigner", "relabel", "subquorum",
 	"wrongblock", "genesisview", "futuretimeout", "badtimeoutsig", "dupvote", "multivote", "zerovote", "unknownvote",
-	"strayvote", "replay", "liefetch", "silent", "staleTC", "swapids", "nosig", "sameview", "aggreplay", "forgevote", "forgetc", "forgecontrib", "aggtwin", "aggattest", "aggforge", "roguekey", "payloadeq", "qceq", "aggswap", "aggstale", "spoofproposer", "dupbatch", "zeroview", "anoncontrib", "lockless", "noqctimeout", "genesissig", "stalechain", "stalechain", "stalechain", "fhshide"}
+	"strayvote", "replay", "liefetch", "silent", "staleTC", "swapids", "nosig", "sameview", "aggreplay", "forgevote", "forgetc", "forgecontrib", "aggtwin", "aggattest", "aggforge", "roguekey", "payloadeq", "qceq", "aggswap", "aggstale", "spoofproposer", "dupbatch", "zeroview", "anoncontrib", "lockless", "noqctimeout", "genesissig", "stalechain", "stalechain", "stalechain", "fhshide", "onevalid", "onevalid", "agglone", "agglone"}
 
 func profileFor(prop string) profile {
 	pr := profile{byz: 0.6, acts: allActs, faults: 6, leaders: []string{"round-robin", "round-robin", "round-robin", "fixed", "carousel", "reputation", "scripted"}}
@@ -461,6 +461,13 @@ func GenPlan(prop string, seed uint64) *Plan {
 			budget--
 		}
 	}
+	if prop == "C06" && p.Clients > 0 && mix(p.Inner, 0x72657478)%2 == 0 {
+		// clients that send a command again when a replica has not answered for a view duration
+		if p.Knobs == nil {
+			p.Knobs = map[string]int{}
+		}
+		p.Knobs["retransmit"] = 1
+	}
 	if (prop == "C10" || prop == "C06") && mix(p.Inner, 0x6d657472)%3 == 0 {
 		// throughput, consensus-latency and view-timeout measurements enabled (handlers of the experiment framework)
 		if p.Knobs == nil {
@@ -522,6 +529,11 @@ func GenPlan(prop string, seed uint64) *Plan {
 		if p.Leader == "scripted" || p.Leader == "fixed" {
 			p.Leader, p.Script = "round-robin", nil
 		}
+	}
+	if prop == "C02" && len(p.Byz) > 0 && (p.Ruleset == "fasthotstuff" || p.Knobs["aggqc"] == 1) && p.Crypto == "bls12" && p.knob("roguekey", 0) == 0 && mix(p.Inner, 0x6c6f6e65)%2 == 0 {
+		// BLS aggregates whose bit field names replicas that are not in the configuration (or that did not sign), with
+		// an entry for each of them: one genuine signer
+		p.Byz[0].Kind, p.Byz[0].Acts, p.Byz[0].Rate = "script", []string{"agglone", "aggswap"}, 1.0
 	}
 	if prop == "C02" && len(p.Byz) > 0 && (p.Ruleset == "fasthotstuff" || p.Knobs["aggqc"] == 1) && p.Crypto != "bls12" && mix(p.Inner, 0x61747769)%2 == 0 {
 		// a Byzantine leader that does nothing but plant a relabelled twin in its aggregates, with enough early
